@@ -4,7 +4,7 @@ import io
 
 from hypothesis import strategies as st
 
-from .. import gen
+from .. import gen, prelude
 from ..spec import to_yaml_dict
 
 PROP = 'C12'
@@ -12,7 +12,7 @@ LEVEL = 'fault_enumeration'
 BUDGET = {'quick': 640, 'thorough': 960}
 RULE = ('cases = a valid document in the documented YAML format (from a generated well-formed '
         'chart; some names written as unquoted integers/booleans, which the importer coerces to '
-        'strings) to which fault operators are applied at every position: duplicate name, unknown '
+        'strings, or as the words yes/no/on/off/y/n) to which fault operators are applied at every position: duplicate name, unknown '
         'target, transitions on final/history states, history under an orthogonal state or as '
         'root, initial = unknown/grandchild/self/parent, memory = unknown/self/non-sibling, '
         'unknown key at statechart/state/transition/contract level, unknown type, states/'
@@ -22,7 +22,8 @@ RULE = ('cases = a valid document in the documented YAML format (from a generate
         'verdict of an independent validator of exactly the listed rules, run on the text as '
         're-loaded by ruamel, decides: invalid => StatechartError (acceptance or any other '
         'exception is a violation); valid => import returns a structurally sound Statechart. '
-        'Non-trivial = faulty document whose fault is not at the root state; distinct = '
+        'Before each case one or two unrelated documents (%YAML 1.1 / 1.2 or %TAG directives, '
+        'rejected ones, anchors) are imported in the same process. Non-trivial = faulty document whose fault is not at the root state; distinct = '
         'sha1(document).')
 ASSUMPTIONS = ['texts that are not well-formed YAML are outside the quantifier',
                'ambiguous shapes (children under a final state, initial on a basic state, null '
@@ -329,6 +330,12 @@ def strategy(tier):
             pool = draw(st.lists(st.sampled_from([1, 2, 3, 10, True, False, 1.5, '1', '2', 'True', ' pad', 'pad ',
                                                   ' both ', 'in ner']),
                                  min_size=1, max_size=3, unique_by=lambda v: (type(v).__name__, v)))
+            if draw(st.floats(0, 1)) < 0.35:
+                # words that only YAML 1.1 reads as booleans: plain strings in the documented
+                # (1.2) reading, whatever was imported before
+                pool = draw(st.lists(st.sampled_from(['yes', 'no', 'on', 'off', 'y', 'n', 'Yes',
+                                                      'NO', 'On', 'OFF']),
+                                     min_size=2, max_size=3, unique=True))
             pool = pool[:len(spec['states'])]
             targets = draw(st.lists(st.sampled_from([s['name'] for s in spec['states']]),
                                     min_size=len(pool), max_size=len(pool), unique=True))
@@ -338,7 +345,7 @@ def strategy(tier):
                       if x['kind'] == 'compound' and draw(st.floats(0, 1)) < 0.25]
         picks = draw(st.lists(st.floats(0, 0.999), min_size=40, max_size=40))
         return {'spec': spec, 'coerce': [[k, v] for k, v in coerce.items()], 'picks': picks,
-                'pairs': big, 'no_initial': no_initial}
+                'pairs': big, 'no_initial': no_initial, 'prelude': draw(prelude.strategy())}
     return cases()
 
 
@@ -413,6 +420,7 @@ def judge(doc, label):
 def oracle(case):
     from ..cli import sha
     viol, labels, keys = [], {}, []
+    prelude.run_prelude(case.get('prelude'))
     if 'doc' in case:          # replay of a single document
         v, valid = judge(case['doc'], case.get('label', 'replay'))
         return {'violations': [v] if v else [], 'labels': {}, 'keys': []}
